@@ -1,6 +1,7 @@
 package main
 
 import (
+	"os"
 	"fmt"
 	"go/types"
 
@@ -138,6 +139,11 @@ func init() {
 			return e.fromTermT(e.ctx.Ite(cnd.T, e.term(x, ki), e.term(y, ki)), ki)
 		},
 		// vsymLog(label, x): record a description of a value in the path sample (debug aid)
-		"vsymLog": func(e *Exec, c *frame, fn *ssa.Function, a []Value) Value { return nil },
+		"vsymLog": func(e *Exec, c *frame, fn *ssa.Function, a []Value) Value {
+			if os.Getenv("VERIF_LOG") != "" {
+				fmt.Fprintf(os.Stderr, "vsymLog: %s %s\n", describe(a[0]), describe(a[1]))
+			}
+			return nil
+		},
 	}
 }
